@@ -1189,6 +1189,9 @@ func (o *Origin) inlinable(fn *ssa.Function) bool {
 	if o.p.hasOwnStoreOp(fn) {
 		return false // a store accessor (also one that delegates the operation to a helper it hands its store to)
 	}
+	if n := fn.Name(); strings.HasPrefix(n, "Must") && len(n) > 4 && n[4] >= 'A' && n[4] <= 'Z' {
+		return false // exported Must* functions (compkey.MustEncode …) are anchors the rules name, wherever their panic sits
+	}
 	if fn.Signature.Recv() != nil {
 		switch fn.Name() {
 		case "ValidateBasic", "GetSigners", "GetSignBytes", "Valid", "Validate":
